@@ -98,6 +98,18 @@ def check_vector(v):
     cmp("track[stranded intervals]", v["understr"], lambda: [[int(x) for x in np.asarray(r.to_array() if hasattr(r, "to_array") else r).tolist()] for r in track[gi]])
     cmp("extract_intervals(stranded)", v["understr"],
         lambda: [[int(x) for x in np.asarray(r.to_array() if hasattr(r, "to_array") else r).tolist()] for r in track.extract_intervals(gi, stranded=True)])
+    # the same track evaluated lazily, one chromosome at a time (a stream of bedGraph chunks), under in-memory intervals that are grouped by
+    # chromosome in genome order (in whatever order within a chromosome): row i belongs to interval i
+    if all(a["c"] <= b["c"] for a, b in zip(es, es[1:])):
+        def streamed(intervals):
+            from bionumpy.streams import NpDataclassStream
+            from bionumpy.genomic_data import GenomicArray
+            bg = BedGraph(ch, np.array(st), np.array(en), np.array(val))
+            cut = max(1, len(bg) // 2)
+            lazy = GenomicArray.from_bedgraph(NpDataclassStream(iter([bg[:cut], bg[cut:]]), dataclass=BedGraph), g.get_genome_context())
+            return [[int(x) for x in np.asarray(r.to_array() if hasattr(r, "to_array") else r).tolist()] for r in bnp.compute(lazy[intervals])]
+        cmp("streamed track[intervals]", v["under"], lambda: streamed(giu))
+        cmp("streamed track[stranded intervals]", v["understr"], lambda: streamed(gi))
     # sequence under the intervals, reverse-complemented on the minus strand
     fa = os.path.join(v["_dir"], "g%s_%d.fa" % ("".join(str(x) for x in G), os.getpid()))
     if not os.path.exists(fa):
